@@ -9,16 +9,19 @@ import tempfile
 from contextlib import redirect_stdout, redirect_stderr
 
 import common
+import toprun
 import mainrun
 import pelbuild
 from common import Check, lean_batch, tlist
 
-TRUSTED = ['Lean 4.33.0 kernel (+ leanchecker in the thorough tier)',
+TRUSTED = ['harness/toprun.py (worlds materialised as real trees, the real peltool.main() run end to end in-process with nothing replaced, recursive snapshots, comparison with the driver op runmain = Pel.runMain of PelModel/Top.lean)',
+           'Lean 4.33.0 kernel (+ leanchecker in the thorough tier)',
            'axioms: propext, Classical.choice, Quot.sound only (audited per theorem)',
            'harness/extract.py (pins), harness/c07.py (enumeration, comparison), Drv.lean protocol parsing',
            'harness/mainrun.py (real main() run with recorded callees; the Config it builds compared with Pel.mkConfig / Pel.dispatch)',
            'compiled driver peldrv agrees with the kernel reading of the same definitions']
-ASSUME = ['the argument parser is exercised through real command lines (`peltool -n` runs and the main() runs), not modelled; the '
+ASSUME = ['whole-command model: -o names the -p directory iff absent/empty or the same string; the -f file is not a top-level file of the -p directory; --json is composed in batch form (an output name equal to another input file name is outside the composition)',
+          'the argument parser is exercised through real command lines (`peltool -n` runs and the main() runs), not modelled; the '
           'construction of the Config from the parsed namespace IS modelled (Pel.mkConfig, Pel.dispatch) and compared on every run',
           'action-flag bits other than 0x8000/0x4000/0x2000 are irrelevant to selection (proved for the model; '
           'sampled with two fillings on the real code)']
@@ -192,6 +195,8 @@ def run(tier, seed):
         shutil.rmtree(tmp, ignore_errors=True)
     # the Config that main() builds from the command line (PelModel/Main.lean: mkConfig, look-up flag)
     mainrun.check_main(ck, tier, 'config')
+    # the WHOLE command end to end on real trees vs Pel.runMain (PelModel/Top.lean), and the command-level properties on the real runs
+    toprun.check_top(ck, tier, 'agree')
     exhaustive = thorough
     return ck.finish(RULE, TRUSTED, ASSUME, exhaustive=exhaustive,
                      extra={'explanation': 'thorough: all 256 severities x 24 flag words (8 relevant patterns x 3 fillings) x all 64 switch '
